@@ -434,6 +434,16 @@ def _judge_git(ctx, S, T, res, pk, spec, flags, fail, full_unchanged, disk):
                 return
 
 
+def _below_symlink(disk, p):
+    """The nearest proper ancestor of p that is a symlink on disk (disk = snap_disk mapping), or None."""
+    q = p
+    while "/" in q:
+        q = q.rpartition("/")[0]
+        if disk.get(q, (None,))[0] == "symlink":
+            return q
+    return None
+
+
 def _judge_unversioned(ctx, T, res, disk, git, spec, fail):
     """(False, False) entries must be real unversioned paths of the target working tree."""
     vp = {e["path"] for e in T.values()}
@@ -445,7 +455,12 @@ def _judge_unversioned(ctx, T, res, disk, git, spec, fail):
         if p in vp and not git:
             fail("unversioned:is-versioned", "%r reported as unversioned but is versioned in the target" % (p,), c)
         elif p not in disk:
-            fail("unversioned:not-on-disk", "%r reported as unversioned but nothing is there" % (p,), c)
+            if _below_symlink(disk, p):
+                # reached by following a symlink that sits where a directory used to be (bzrformats dirstate fast path
+                # lstat()s the old location of a moved directory): not a tree path at all
+                fail("unversioned:path-reached-through-a-symlink", "%r reported as unversioned; %r is a symlink" % (p, _below_symlink(disk, p)), c)
+            else:
+                fail("unversioned:not-on-disk", "%r reported as unversioned but nothing is there" % (p,), c)
 
 
 FIELDS = ("file_id", "path", "changed_content", "versioned", "parent_id", "name", "kind", "executable", "copied")
@@ -562,7 +577,11 @@ def _differential(ctx, cls, r1, r2, spec, flags, S, T, pk, detail_base):
         ctx.count("diff_unversioned")
         for q in sorted(ua ^ ub)[:1]:
             side = "extra-in-optimiser" if q in ua else "missing-in-optimiser"
-            rec("unversioned:%s:%s" % (side, "path-versioned-in-source" if q in sp else "plain"),
+            links = {e["path"]: ("symlink",) for e in T.values() if e["kind"] == "symlink"}
+            role = "path-versioned-in-source" if q in sp else "plain"
+            if side == "extra-in-optimiser" and _below_symlink(links, q):
+                role = "path-reached-through-a-symlink"
+            rec("unversioned:%s:%s" % (side, role),
                 "unversioned %r reported by %s only" % (q, "the optimiser" if q in ua else "the generic walk"),
                 {"optimiser_unversioned": sorted(ua), "generic_unversioned": sorted(ub)})
 
